@@ -4,6 +4,7 @@ import collections
 import vlib
 import impl
 import gens
+from props import common
 
 THEOREMS = ['Props/C01.v: C01_lossless (forall t, lex succeeds, values concatenate to t, all non-empty, '
             'LexSpec: first matching rule wins / one-character Error token)',
@@ -74,6 +75,14 @@ def run(ctx):
             types = tuple(t.split(':')[0] for t in mine[3:].split('|')) if len(mine) > 3 else ()
             if len(set(types)) >= 2:
                 shapes.add(types)
+    # long tokens / long runs (oracle only)
+    nlong = 0
+    for kind, text, span in gens.long_cases(ctx.quick() if hasattr(ctx, 'quick') else True):
+        nlong += 1
+        f = common.long_lex_failure(kind, text, span)
+        if f:
+            f['stage'] = 'oracle-long'
+            res['failures'].append(f)
     # stage rmatch: every rule at sampled positions
     nr = len(impl.compiled_rules())
     reqs = []
@@ -170,6 +179,8 @@ def search(ctx, hints):
 
 
 def shrink(f):
+    if f and f.get('long_input'):
+        return f
     s = ''.join(map(chr, f['input']))
     best = f
     changed = True
@@ -193,5 +204,10 @@ def replay(payload):
     f = payload.get('failure')
     if not f or 'input' not in f:
         return {'fails': False, 'note': 'no concrete input in replay file: ' + str(payload.get('no_longer_checks'))}
+    if f.get('long_input'):
+        lc = common.long_case_text(f)
+        if lc:
+            g = common.long_lex_failure(*lc)
+            return {'fails': bool(g), 'observed': g}
     g = oracle(''.join(map(chr, f['input'])))
     return {'fails': bool(g), 'observed': g}
